@@ -41,6 +41,27 @@ pub trait Loader: Sized + std::fmt::Debug {
     /// url instead of by path to ensure universal compatibility of style sheets.
     /// This effectively mandates the use of forward slashes on all platforms.
     fn find_file(&self, url: &str) -> Result<Option<Self::File>, LoadError>;
+
+    /// Find the first existing file of some alternative urls.
+    ///
+    /// Returns the index of the url that was found along with the file.
+    ///
+    /// A loader that searches more than one location should override
+    /// this to try all the urls in one location before any url in the
+    /// next location.
+    /// The default implementation calls [`Self::find_file`] for each
+    /// url in turn.
+    fn find_first(
+        &self,
+        urls: &[String],
+    ) -> Result<Option<(usize, Self::File)>, LoadError> {
+        for (i, url) in urls.iter().enumerate() {
+            if let Some(file) = self.find_file(url)? {
+                return Ok(Some((i, file)));
+            }
+        }
+        Ok(None)
+    }
 }
 
 /// An error loading a file.
